@@ -237,6 +237,49 @@ impl<T> Cache<T> {
     }
 }
 
+#[cfg(sstable_verif)]
+impl<T> Cache<T> {
+    /// Read-only dump for the verification harness: keys in forward (most recent first) list
+    /// order, keys in backward order (following `prev` from the tail), sorted map keys, and the
+    /// list's element counter. Walks are bounded so that a broken list cannot hang the dump.
+    pub fn verif_dump(&self) -> (Vec<CacheKey>, Vec<CacheKey>, Vec<CacheKey>, usize) {
+        let bound = self.map.len() + self.list.count + 2;
+        let mut fwd = vec![];
+        let mut cur = self.list.head.next.as_ref();
+        while let Some(n) = cur {
+            if fwd.len() > bound {
+                break;
+            }
+            if let Some(k) = n.data.as_ref() {
+                fwd.push(*k);
+            } else {
+                fwd.push([0xee; 16]);
+            }
+            cur = n.next.as_ref();
+        }
+        let mut bwd = vec![];
+        let headp = &self.list.head as *const LRUNode<CacheKey>;
+        let mut p = self.list.head.prev;
+        // an empty list has head.prev == None (or, after removals, possibly Some(head))
+        while let Some(np) = p {
+            if np as *const LRUNode<CacheKey> == headp || bwd.len() > bound {
+                break;
+            }
+            unsafe {
+                if let Some(k) = (*np).data.as_ref() {
+                    bwd.push(*k);
+                } else {
+                    bwd.push([0xee; 16]);
+                }
+                p = (*np).prev;
+            }
+        }
+        let mut keys: Vec<CacheKey> = self.map.keys().cloned().collect();
+        keys.sort();
+        (fwd, bwd, keys, self.list.count)
+    }
+}
+
 // The compiler does not automatically derive Send and Sync for Cache because it contains
 // raw pointers.
 // These raw pointers are only pointing to the elements hold in the same cache and insertion
